@@ -689,7 +689,9 @@ impl Driver {
         while self.abort.is_none() {
             let Some((&g, e)) = self.table.iter().next() else { break };
             let c = CallSpec { op: "drop".into(), targ: e.ty, ty: e.ty, dy: e.dy, gs: vec![g], ..Default::default() };
-            evs.push(self.do_call(&c));
+            let mut ev = self.do_call(&c);
+            ev["closing"] = json!(true);
+            evs.push(ev);
         }
         evs
     }
